@@ -140,6 +140,13 @@ class LoggedList(list):
         return self
 
 
+class FalsyShared(list):
+    """a shared object that is not None but falsy (an empty list)"""
+
+    def __deepcopy__(self, memo):
+        return FalsyShared()
+
+
 class InputBroken(Exception):
     pass
 
@@ -495,7 +502,9 @@ def _run(sc, S, obs):
     from mpire import WorkerPool
     pc = dict(sc.get('pool', {}))
     shared = pc.pop('shared_objects', False)
-    shared_obj = {'shared': 42} if shared else None
+    # 'falsy': an object that is enabled (not None) but falsy — a list the workers are meant to see
+    FALSY = FalsyShared()
+    shared_obj = FALSY if shared == 'falsy' else {'shared': 42} if shared else None
     calls = obs['calls'] = []       # (fkind, role, token, wid_seen, idx, t_enter, t_exit, ok_convention, state_ok, shared_ok)
     excs_raised = obs['raised'] = []
     # injections
@@ -520,7 +529,7 @@ def _run(sc, S, obs):
             wid = a.pop(0)
         if cfg['shared']:
             so = a.pop(0)
-            shared_ok = isinstance(so, dict) and so.get('shared') == 42
+            shared_ok = (isinstance(so, dict) and so.get('shared') == 42) or isinstance(so, FalsyShared)
         if cfg['use_worker_state']:
             state = a.pop(0)
         return wid, shared_ok, state, a
@@ -670,7 +679,7 @@ def _run(sc, S, obs):
                 elif kind == 'set':
                     what, val = op['what'], op['value']
                     if what == 'shared_objects':
-                        pool.set_shared_objects({'shared': 42} if val else None)
+                        pool.set_shared_objects(FalsyShared() if val == 'falsy' else {'shared': 42} if val else None)
                     else:
                         {'pass_worker_id': pool.pass_on_worker_id, 'use_worker_state': pool.set_use_worker_state,
                          'keep_alive': pool.set_keep_alive, 'order_tasks': pool.set_order_tasks}[what](val)
@@ -858,7 +867,7 @@ def _res_json(res):
 
 def _do_apply(pool, op, opi, o, mk_funcs, S, obs):
     """a batch of apply_async submissions followed by waits in a given order"""
-    task, init, exit_ = mk_funcs(dict(op, elem='tuple'), opi)
+    task, init, exit_ = mk_funcs(dict(op, elem='scalar' if op.get('bare_args') else 'tuple'), opi)
     cb_log = o['callbacks'] = []
     results = []
     kw = {}
@@ -881,7 +890,10 @@ def _do_apply(pool, op, opi, o, mk_funcs, S, obs):
             cb_log.append(('ecb', i, type(e).__name__, round(S.now - S.t0, 6)))
             if op.get('cb_dur'):
                 sim.time_shim.sleep(op['cb_dur'])
-        if t.get('kwargs'):
+        if op.get('bare_args'):
+            # a bare (non-tuple) value as args — including falsy ones (0)
+            r = pool.apply_async(task, args=i, callback=cb, error_callback=ecb, **kw)
+        elif t.get('kwargs'):
             r = pool.apply_async(task, args=(i,), kwargs={'b': i + 1} if False else None, callback=cb, error_callback=ecb, **kw)
         else:
             r = pool.apply_async(task, args=(i, i + 1), callback=cb, error_callback=ecb, **kw)
